@@ -976,7 +976,7 @@ def reference_fns():
             # reference helpers the rules look through: always written where they are called, so that a tree in which the
             # helper was folded into its caller has the same normal form
             transparent = {'anycache::CacheExt::add_any'}
-            _REF[0] = {'sig': d['sig'], '*': set(d['all']) - transparent, 'consts': set(d.get('consts', [])), 'callers': d.get('callers', {}), 'transparent': transparent, 'sig_cfg': d.get('sig_cfg', {})}
+            _REF[0] = {'sig': d['sig'], '*': set(d['all']) - transparent, 'consts': set(d.get('consts', [])), 'callers': d.get('callers', {}), 'transparent': transparent, 'sig_cfg': d.get('sig_cfg', {}), 'fields_cfg': d.get('fields_cfg', {})}
             for c, v in d.get('per_cfg', {}).items():
                 _REF[0][c] = set(v) - transparent
         else:
@@ -1013,6 +1013,7 @@ class Facts:
                 raw, self.renamed, self.inlined = cached['raw'], cached['renamed'], [tuple(x) for x in cached['inlined']]
                 self.inline_args, self.dropped_raw = cached.get('inline_args', {}), cached.get('dropped_raw', {})
             else:
+                self._rename_fields(raw, ref)
                 raw = self._normalise(raw, text, ref)
                 try:
                     tmp = cpath + '.%d.tmp' % os.getpid()
@@ -1059,6 +1060,43 @@ class Facts:
         if not a:
             return None
         return [v['name'] for v in sorted(a['variants'], key=lambda v: v['idx'])]
+
+    def _rename_fields(self, raw, ref):
+        """a field of a struct or union that has the position and the type it had on the reference tree under another
+        name was renamed: the reference name is written back (projections, aggregates, the type table), so that the
+        rules -- which name fields -- see the same program.  Only when every field of the type keeps position and type."""
+        want = ref.get('fields_cfg', {}).get(self.cfg, {})
+        ren = {}
+        for a in raw['adts']:
+            w = want.get(a['path'])
+            if w is None or a['kind'] not in ('struct', 'union') or len(a['variants']) != 1:
+                continue
+            fs = a['variants'][0]['fields']
+            if len(fs) != len(w) or [f['ty'] for f in fs] != [t for _, t in w]:
+                continue
+            m = {f['name']: n for f, (n, _) in zip(fs, w) if f['name'] != n}
+            if m:
+                ren[a['path']] = m
+                for f in fs:
+                    f['name'] = m.get(f['name'], f['name'])
+        if not ren:
+            return
+        self.renamed_fields = {k: dict(v) for k, v in ren.items()}
+
+        def walk(x):
+            if isinstance(x, dict):
+                if 'n' in x and x.get('of') in ren:
+                    x['n'] = ren[x['of']].get(x['n'], x['n'])
+                if x.get('k') == 'aggregate' and x.get('adt') in ren and isinstance(x.get('fields'), list):
+                    x['fields'] = [ren[x['adt']].get(n, n) for n in x['fields']]
+                for v in x.values():
+                    if isinstance(v, (dict, list)):
+                        walk(v)
+            elif isinstance(x, list):
+                for v in x:
+                    if isinstance(v, (dict, list)):
+                        walk(v)
+        walk(raw['bodies'])
 
     # ---- helper extraction / renames (see inline.py) --------------------------
     def _normalise(self, raw, text, ref):
